@@ -2,9 +2,9 @@ SPECIFICATION Spec
 CONSTANTS
     TaskOrder <- MCTaskOrder
     TplOrder <- MCTplOrder
-    MaxReq = 4
-    MaxCrash = 2
-    Level = "thorough"
+    MaxReq = 5
+    MaxCrash = 1
+    Level = "quick"
     FixAssoc = TRUE
     FixTplLast = TRUE
     Known = {"rename-both-ids", "template-update-partial"}
